@@ -23,6 +23,7 @@ TECHNIQUE = ("runtime monitoring: wire recorder on a reference Tor (ADD_ONION/DE
              "enumeration of the option product")
 LEVEL_TEXT = ("Held on the executions observed: the complete product route x version x key x detach x single-hop x "
               "auth x port-forms x waiting mode (about 11 500 cells, every cell run once against a fresh reference Tor), "
+              "540 multi-creation histories re-using the caller's request objects, "
               "plus seeded random port/key/client strings on the thorough tier. Enumeration of the stated cells, "
               "not a proof for other port numbers, paths, names or keys.")
 LEVEL_NOTE = ("Trusted: vf.refs.addonion (parser/reply builder, self-tested), vf.faketor.oniontor (acceptance rules "
@@ -32,7 +33,10 @@ RULE = ("a case = one cell (route in {EphemeralOnionService.create, EphemeralAut
         "Tor.create_onion_service} x version {2,3} x key {none, DISCARD, bare blob, type-prefixed blob, 5 CR/LF placements} "
         "x detach x single-hop x auth {none | AuthBasic with 0..3 clients with/without tokens} x 10 port lists of 1-3 mappings "
         "(int, (int,int), (int,'unix:/..'), (int,'ip:port'), 'N ip:port' string, 'N unix:/..' string) x await_all_uploads), "
-        "create() then HS_DESC UPLOAD/UPLOADED for the service then remove(). Distinct = hash of the cell. "
+        "create() then HS_DESC UPLOAD/UPLOADED for the service then remove(); plus histories of 2-3 creations on ONE connection and "
+        "TorConfig that re-use the caller's request objects (the same ports list, AuthBasic instance and key string): two / three live "
+        "services, re-creation after removal, creation after an ADD_ONION Tor refused (512), creation after a locally rejected CR/LF key - "
+        "every ADD_ONION judged by the same per-creation oracle against what the caller asked for. Distinct = hash of the cell / history. "
         "Non-trivial = the ADD_ONION line was decoded and compared (or, for CR/LF keys, the absence of any "
         "ADD_ONION/foreign line was checked).")
 ASSUMPTIONS = [
@@ -42,6 +46,8 @@ ASSUMPTIONS = [
     "for int-only port entries the local port is whatever the (fake) reactor handed out for a 127.0.0.1 listener",
     "BasicAuth with version 3, and BasicAuth with no clients, are refused by Tor: only the command content is judged there",
     "completion of create() is not part of this property (C15); it is counted",
+    "whether a creation mutates the caller's request objects (ports list, AuthBasic tokens) is observed and counted "
+    "(request_objects_mutated); the verdict comes from the ADD_ONION of the next creation that re-uses them",
 ]
 TRUSTED_BASE = ["vf.refs.addonion (ADD_ONION/DEL_ONION parser, self-tested)",
                 "vf.faketor.oniontor.OnionTor (reference server, self-tested; `cryptography` RSA)",
@@ -58,11 +64,12 @@ ANCHORS = [
 FLOORS = {
     "quick": {"evaluations": 1500, "add_onion_decoded": 800, "del_onion_decoded": 600, "custody_snapshots": 3000,
               "crlf_cells_checked": 500, "hostname_compared": 600, "generated_key_retention_checked": 150,
+              "history_creations": 120, "request_objects_compared": 300,
               "reach:txtorcon.onion:_add_ephemeral_service": 1000,
               "reach:txtorcon.onion:_validate_single_port_string": 1500},
     "thorough": {"evaluations": 3000, "add_onion_decoded": 2000, "del_onion_decoded": 1500, "custody_snapshots": 6000,
                  "crlf_cells_checked": 800, "hostname_compared": 1500, "generated_key_retention_checked": 300,
-                 "random_cells": 1000,
+                 "random_cells": 1000, "history_creations": 120, "request_objects_compared": 300,
                  "reach:txtorcon.onion:_add_ephemeral_service": 2000},
 }
 
@@ -257,39 +264,70 @@ def strings_of(obj, depth=0, seen=None):
     return out
 
 
-def run_cell(cell, rec, probe=False):
-    """execute one cell against a fresh reference Tor and judge it"""
+class Ctx(object):
+    """one control connection + reference Tor (+ TorConfig / txtorcon.Tor) shared by the creations of a history"""
+
+    def __init__(self, single_hop, probe=False):
+        self.tor = (LooseTor if probe else OT.OnionTor)(non_anonymous_mode=bool(single_hop))
+        self.proto, self.tor, self.link = connected_protocol(self.tor)
+        self.reactor = OT.PortReactor()
+        self.aud = audit.Auditor(wire.LClock())
+        self.cfg = None             # TorConfig (routes eph/auth), built on first use
+        self.ttor = None            # txtorcon.Tor (route tor)
+        self.services = []          # (service object, service id) of accepted creations, in order
+        self.case = None            # what a violation stores for replay (the history), None: the cell
+        self.hook = {"fn": None}
+        self.tor.on_line.append(lambda line: self.hook["fn"] and self.hook["fn"](line))
+
+    def config(self):
+        if self.cfg is None and self.ttor is not None:
+            self.cfg = self.ttor._config
+        return self.cfg
+
+
+def run_cell(cell, rec, probe=False, ctx=None, objs=None, extra_class=None, inject=None, remove=True):
+    """execute one creation (cell) and judge it.  Alone: against a fresh reference Tor.  With `ctx`: as
+    a further creation on the same connection, `objs` = caller-owned request objects re-used from an
+    earlier creation ({"ports": list, "auth": AuthBasic, "key": ...}); inject="refuse": Tor answers 512."""
     import txtorcon
     from txtorcon import TorConfig
     from txtorcon.onion import (EphemeralOnionService, EphemeralAuthenticatedOnionService, AuthBasic)
 
     bad = []
     route, version = cell["route"], cell["version"]
+    case = ctx.case if (ctx is not None and ctx.case) else dict(cell)
 
     def V(clause, detail, extra=None):
         bad.append(clause)
-        rec.violation(clause, input_class(cell, extra), detail, dict(cell))
+        ex = "+".join(x for x in (extra, extra_class) if x)
+        rec.violation(clause, input_class(cell, ex or None), detail, case)
 
-    tor = (LooseTor if probe else OT.OnionTor)(non_anonymous_mode=bool(cell["single_hop"]))
-    proto, tor, link = connected_protocol(tor)
-    reactor = OT.PortReactor()
-    aud = audit.Auditor(wire.LClock())
+    if ctx is None:
+        ctx = Ctx(cell["single_hop"], probe)
+    tor, proto, link, reactor, aud = ctx.tor, ctx.proto, ctx.link, ctx.reactor, ctx.aud
+    tor.non_anonymous_mode = bool(cell["single_hop"])
     logs = audit.LogCapture()
     logs.start()
     snaps = []          # (moment, [strings])
-    state = {"svc": None, "cfg": None}
+    state = {"svc": None}
+    cfg0 = ctx.config()
+    try:
+        n_before = len(cfg0.EphemeralOnionServices) if cfg0 is not None else 0
+    except Exception:
+        n_before = 0
+    alloc_before = len(reactor.ports)
+    rep_before = len(tor.replies)
+    log_before = len(tor.add_onion_log)
 
     def find_service():
-        cfg = state["cfg"]
-        if cfg is None and state.get("tor") is not None:
-            cfg = state["cfg"] = state["tor"]._config
+        cfg = ctx.config()
         if state["svc"] is None and cfg is not None:
             try:
                 lst = cfg.EphemeralOnionServices
             except Exception:
                 lst = []
-            if lst:
-                state["svc"] = lst[-1]
+            if len(lst) > n_before:
+                state["svc"] = lst[n_before]
         return state["svc"]
 
     def snap(moment):
@@ -301,35 +339,56 @@ def run_cell(cell, rec, probe=False):
     def on_line(line):
         if line.startswith("ADD_ONION"):
             snap("add-onion-written")
-    tor.on_line.append(on_line)
+    ctx.hook["fn"] = on_line
 
     try:
         key_arg, want_specs, supplied = key_material(cell)
+        if objs is not None and "key" in objs and want_specs is not None and cell["key"] in ("bare", "prefixed"):
+            key_arg = objs["key"]
         kw = dict(private_key=key_arg, version=version, detach=cell["detach"],
                   single_hop=cell["single_hop"], await_all_uploads=cell["await_all"])
         progress = []
         if cell["await_all"]:
             kw["progress"] = lambda p, tag, desc: progress.append(p)
-        ports = [tuple(p) if isinstance(p, list) else p for p in cell["ports"]]
-        if route == "tor":
-            t = txtorcon.Tor(reactor, proto)
-            state["tor"] = t
-            base = len(tor.lines)
-            d = t.create_onion_service(ports, **kw)
+        if objs is not None and "ports" in objs:
+            ports = objs["ports"]
         else:
-            cfg = TorConfig(proto)
-            link.pump()
-            if not cfg.post_bootstrap.called:
-                V("harness-config-bootstrap-stalled", {"lines": tor.lines[-5:]})
-                return bad
-            state["cfg"] = cfg
+            ports = [tuple(p) if isinstance(p, list) else p for p in cell["ports"]]
+        ports_before = [p for p in ports]
+        auth_obj = None
+        if inject == "refuse":
+            tor.script("ADD_ONION", (512, [("end", "Bad arguments to ADD_ONION: refused by the harness")]))
+        if route == "tor":
+            if ctx.ttor is None:
+                ctx.ttor = txtorcon.Tor(reactor, proto)
+            base = len(tor.lines)
+            d = ctx.ttor.create_onion_service(ports, **kw)
+        else:
+            if ctx.cfg is None:
+                ctx.cfg = TorConfig(proto)
+                link.pump()
+                if not ctx.cfg.post_bootstrap.called:
+                    V("harness-config-bootstrap-stalled", {"lines": tor.lines[-5:]})
+                    return bad
+            cfg = ctx.cfg
             base = len(tor.lines)
             if route == "auth":
-                clients = [tuple(c) if isinstance(c, list) else c for c in cell["clients"]]
-                kw["auth"] = AuthBasic(clients)
+                if objs is not None and "auth" in objs:
+                    auth_obj = objs["auth"]
+                else:
+                    clients = [tuple(c) if isinstance(c, list) else c for c in cell["clients"]]
+                    auth_obj = AuthBasic(clients)
+                auth_before = {n: auth_obj.keyblob_for(n) for n in auth_obj.client_names()}
+                kw["auth"] = auth_obj
                 d = EphemeralAuthenticatedOnionService.create(reactor, cfg, ports, **kw)
             else:
                 d = EphemeralOnionService.create(reactor, cfg, ports, **kw)
+        if objs is not None:
+            objs.setdefault("ports", ports)
+            if auth_obj is not None:
+                objs.setdefault("auth", auth_obj)
+            if cell["key"] in ("bare", "prefixed"):
+                objs.setdefault("key", key_arg)
         o = aud.watch(d, "create")
         link.pump()
         if route == "tor":
@@ -339,6 +398,22 @@ def run_cell(cell, rec, probe=False):
                           or "HS_DESC" in l)), len(tor.lines))
         mine = lambda: tor.lines[base:]
         add_lines = [l for l in mine() if l.upper().startswith("ADD_ONION")]
+
+        def request_objects_check():
+            # the caller's request objects after the creation: observed (counted), the verdict comes from
+            # the ADD_ONION of the NEXT creation that re-uses them
+            if list(ports) != ports_before:
+                rec.count("request_objects_mutated")
+                rec.seen("request_object_mutations", "ports-list/" + input_class(cell))
+            if auth_obj is not None:
+                try:
+                    now = {n: auth_obj.keyblob_for(n) for n in auth_obj.client_names()}
+                except Exception as e:
+                    now = {"<error>": repr(e)}
+                rec.count("request_objects_compared")
+                if now != auth_before:
+                    rec.count("request_objects_mutated")
+                    rec.seen("request_object_mutations", "auth-basic-tokens/" + input_class(cell))
 
         # ---- CR/LF key material: error, nothing written but (un)subscriptions -----------------
         if want_specs is None:
@@ -351,10 +426,11 @@ def run_cell(cell, rec, probe=False):
             foreign = [l for l in foreign if not l.upper().startswith("ADD_ONION")]
             if foreign:
                 V("crlf-key-injected-line", {"lines": foreign})
-            refused = [(l, c) for (l, c, _) in tor.replies if c >= 400 and not l.startswith("GETINFO onions/")]
+            refused = [(l, c) for (l, c, _) in tor.replies[rep_before:] if c >= 400 and not l.startswith("GETINFO onions/")]
             if refused and not foreign and not add_lines:
                 V("crlf-key-injected-line", {"refused": refused})
-            rec.case(cell, nontrivial=True)
+            request_objects_check()
+            rec.case(cell if extra_class is None else [cell, extra_class], nontrivial=True)
             return bad
 
         # ---- the command ---------------------------------------------------------------------
@@ -362,7 +438,6 @@ def run_cell(cell, rec, probe=False):
             V("add-onion-count-%d" % len(add_lines), {"lines": mine(), "outcome": str(o.describe())[:300]})
             rec.case(cell, nontrivial=False)
             return bad
-        ent = tor.add_onion_log[-1]
         try:
             parsed = AO.parse_add_onion(add_lines[0][len("ADD_ONION "):])
         except AO.AddOnionError as e:
@@ -378,7 +453,7 @@ def run_cell(cell, rec, probe=False):
         # ports
         fixed, ints = expected_ports(cell["ports"], None)
         got = [(v, norm_target(v, t)) for (v, t) in parsed.ports]
-        allocated = [p.number for p in reactor.ports]
+        allocated = [p.number for p in reactor.ports[alloc_before:]]
         rest = list(got)
         ports_ok = True
         for f in fixed:
@@ -402,7 +477,7 @@ def run_cell(cell, rec, probe=False):
         if not ports_ok:
             V("port-mappings-mismatch", {"requested": cell["ports"], "allocated_local_ports": allocated,
                                          "sent": parsed.ports}, extra="ports=" + port_forms(cell["ports"]))
-        for p in reactor.ports:
+        for p in reactor.ports[alloc_before:]:
             if p.interface != "127.0.0.1":
                 V("local-port-not-loopback", {"interface": p.interface})
         # flags
@@ -426,6 +501,17 @@ def run_cell(cell, rec, probe=False):
         if sorted(parsed.client_auth, key=repr) != sorted(want_auth, key=repr):
             V("client-auth-mismatch", {"want": want_auth, "got": parsed.client_auth})
 
+        if inject == "refuse":
+            rec.count("refused_by_injection")
+            if not (o.fired == 1 and o.ok is False):
+                V("create-did-not-fail-after-refused-add-onion", {"outcome": str(o.describe())[:200]})
+            request_objects_check()
+            rec.case([cell, extra_class, inject], nontrivial=True)
+            return bad
+        if len(tor.add_onion_log) <= log_before:
+            V("harness-add-onion-not-handled", {"lines": mine()})
+            return bad
+        ent = tor.add_onion_log[-1]
         expect_refusal = route == "auth" and (version == 3 or not cell["clients"])
         if ent["code"] != 250:
             if not expect_refusal:
@@ -433,9 +519,10 @@ def run_cell(cell, rec, probe=False):
                     V("add-onion-refused-by-tor", {"line": add_lines[0], "code": ent["code"], "text": ent["text"]})
             else:
                 rec.count("refused_by_tor_as_expected")
-            rec.case(cell, nontrivial=True)
+            rec.case(cell if extra_class is None else [cell, extra_class], nontrivial=True)
             if len([l for l in mine() if l.upper().startswith("ADD_ONION")]) != 1:
                 V("add-onion-count-after-refusal", {"lines": mine()})
+            request_objects_check()
             return bad
         sid = ent["service_id"]
         trec = tor.onions[sid]
@@ -444,6 +531,7 @@ def run_cell(cell, rec, probe=False):
         if svc is None:
             V("no-service-object", {})
             return bad
+        ctx.services.append((svc, sid))
         # ---- address --------------------------------------------------------------------------
         rec.count("hostname_compared")
         if svc.hostname != sid + ".onion":
@@ -507,49 +595,120 @@ def run_cell(cell, rec, probe=False):
                 toks = {"<error>": repr(e)}
             if toks != trec.client_auth:
                 rec.count("client_tokens_differ_from_tor")
-        # ---- removal --------------------------------------------------------------------------
-        before = len(tor.lines)
-        try:
-            dr = svc.remove()
-        except Exception as e:
-            V("remove-raised", {"exc": repr(e)})
-            return bad
-        orm = aud.watch(dr, "remove")
-        link.pump()
-        snap("after-remove")
-        dels = [l for l in tor.lines[before:] if l.upper().startswith("DEL_ONION")]
-        others = [l for l in tor.lines[before:] if not l.upper().startswith("DEL_ONION")
-                  and not l.startswith("SETEVENTS ")]
-        if len(dels) != 1:
-            V("del-onion-count-%d" % len(dels), {"lines": tor.lines[before:]})
-        else:
-            rec.count("del_onion_decoded")
-            try:
-                got_sid = AO.parse_del_onion(dels[0][len("DEL_ONION "):])
-            except AO.AddOnionError as e:
-                got_sid = None
-                V("del-onion-malformed", {"line": dels[0], "error": str(e), "service_id": sid})
-            if got_sid is not None and got_sid != sid:
-                V("del-onion-wrong-service", {"line": dels[0], "service_id": sid})
-            if got_sid == sid and not (orm.fired == 1 and orm.ok):
-                V("remove-did-not-succeed", {"outcome": str(orm.describe())[:200]})
-        if others:
-            V("unexpected-line-on-removal", {"lines": others})
+        request_objects_check()
         n_add = len([l for l in mine() if l.upper().startswith("ADD_ONION")])
         if n_add != 1:
             V("add-onion-count-%d" % n_add, {"lines": mine()})
-        stray = [(l, c) for (l, c, _) in tor.replies if c >= 500 and not l.startswith("GETINFO onions/")]
+        # ---- removal --------------------------------------------------------------------------
+        if remove:
+            bad += remove_service(ctx, cell, rec, svc, sid, V, snap)
+        stray = [(l, c) for (l, c, _) in tor.replies[rep_before:] if c >= 500 and not l.startswith("GETINFO onions/")]
         if stray:
             V("command-refused-by-tor", {"refused": stray})
         if link.exceptions:
             V("exception-escaped", {"exc": link.exceptions})
-        rec.case(cell, nontrivial=True)
+            del link.exceptions[:]
+        rec.case(cell if extra_class is None else [cell, extra_class], nontrivial=True)
         return bad
     finally:
+        ctx.hook["fn"] = None
         logs.stop()
         n = len(logs.take())
         if n:
             rec.count("logged_errors", n)
+
+
+def remove_service(ctx, cell, rec, svc, sid, V, snap=None):
+    """svc.remove() and its oracle: exactly one DEL_ONION <sid>, nothing else but SETEVENTS"""
+    tor, link, aud = ctx.tor, ctx.link, ctx.aud
+    before = len(tor.lines)
+    try:
+        dr = svc.remove()
+    except Exception as e:
+        V("remove-raised", {"exc": repr(e)})
+        return []
+    orm = aud.watch(dr, "remove")
+    link.pump()
+    if snap:
+        snap("after-remove")
+    ctx.services = [(s, i) for (s, i) in ctx.services if s is not svc]
+    dels = [l for l in tor.lines[before:] if l.upper().startswith("DEL_ONION")]
+    others = [l for l in tor.lines[before:] if not l.upper().startswith("DEL_ONION")
+              and not l.startswith("SETEVENTS ")]
+    if len(dels) != 1:
+        V("del-onion-count-%d" % len(dels), {"lines": tor.lines[before:]})
+    else:
+        rec.count("del_onion_decoded")
+        try:
+            got_sid = AO.parse_del_onion(dels[0][len("DEL_ONION "):])
+        except AO.AddOnionError as e:
+            got_sid = None
+            V("del-onion-malformed", {"line": dels[0], "error": str(e), "service_id": sid})
+        if got_sid is not None and got_sid != sid:
+            V("del-onion-wrong-service", {"line": dels[0], "service_id": sid})
+        if got_sid == sid and not (orm.fired == 1 and orm.ok):
+            V("remove-did-not-succeed", {"outcome": str(orm.describe())[:200]})
+    if others:
+        V("unexpected-line-on-removal", {"lines": others})
+    return []
+
+
+# ---------------------------------------------------------------------------
+# histories: several creations on one connection re-using the caller's request objects
+
+HISTORY_SHAPES = ("twice-live", "three-live", "recreate", "after-refusal", "after-local-error")
+
+
+def all_histories():
+    for route in ROUTES:
+        auths = ("b1n", "b2", "b3", "b3n", "b1t") if route == "auth" else (None,)
+        versions = (2,) if route == "auth" else (2, 3)
+        for shape, version, a, pl, detach in itertools.product(
+                HISTORY_SHAPES, versions, auths, ("int+pair+str", "pair+pair-unix", "str-unix+int+pair"), (False, True)):
+            keys = ("bare", "prefixed") if shape == "recreate" else ("none", "discard")
+            for key in keys:
+                yield {"history": shape, "route": route, "version": version, "key": key, "detach": detach,
+                       "single_hop": False, "auth": a, "clients": auth_clients(a) if a else None,
+                       "ports_id": pl, "ports": PORT_LISTS[pl], "await_all": detach}
+
+
+def run_history(h, rec):
+    """2-3 creations in a row on ONE connection / TorConfig with the SAME request objects
+    (ports list, AuthBasic instance, key string); every ADD_ONION is judged by the unchanged
+    per-creation oracle against what the caller asked for."""
+    shape = h["history"]
+    cell = {k: v for k, v in h.items() if k != "history"}
+    ctx = Ctx(cell["single_hop"])
+    ctx.case = dict(h)
+    objs = {}
+    tag = "later-creation-reusing-request-objects"
+    rec.count("histories")
+    if shape in ("twice-live", "three-live"):
+        n = 2 if shape == "twice-live" else 3
+        for i in range(n):
+            run_cell(cell, rec, ctx=ctx, objs=objs, extra_class=tag if i else "first-creation-of-history", remove=False)
+            rec.count("history_creations")
+        for (svc, sid) in list(ctx.services):
+            def V(clause, detail, extra=None):
+                rec.violation(clause, input_class(cell, "removal-after-history"), detail, ctx.case)
+            remove_service(ctx, cell, rec, svc, sid, V)
+    elif shape == "recreate":
+        run_cell(cell, rec, ctx=ctx, objs=objs, extra_class="first-creation-of-history", remove=True)
+        run_cell(cell, rec, ctx=ctx, objs=objs, extra_class=tag, remove=True)
+        rec.count("history_creations", 2)
+    elif shape == "after-refusal":
+        run_cell(cell, rec, ctx=ctx, objs=objs, extra_class="first-creation-of-history", inject="refuse")
+        run_cell(cell, rec, ctx=ctx, objs=objs, extra_class=tag + "+after-refused-creation", remove=True)
+        run_cell(cell, rec, ctx=ctx, objs=objs, extra_class=tag + "+after-refused-creation", remove=True)
+        rec.count("history_creations", 3)
+    elif shape == "after-local-error":
+        c0 = dict(cell, key="crlf-lf-mid")
+        run_cell(c0, rec, ctx=ctx, objs=objs, extra_class="first-creation-of-history")
+        run_cell(cell, rec, ctx=ctx, objs=objs, extra_class=tag + "+after-locally-rejected-key", remove=False)
+        run_cell(cell, rec, ctx=ctx, objs=objs, extra_class=tag + "+after-locally-rejected-key", remove=True)
+        rec.count("history_creations", 3)
+    else:
+        raise ValueError(shape)
 
 
 # ---------------------------------------------------------------------------
@@ -638,6 +797,13 @@ def run_shard(spec, rec):
                 run_cell(cell, rec, probe=True)
         rec.count("cells_in_product", len(mine))
         rec.enumerated("route x version x key x detach x single-hop x auth x port-list x await_all (%d cells)" % len(cells))
+    elif spec["mode"] == "history":
+        hs = list(all_histories())
+        for i, h in enumerate(hs[spec["part"]::spec["parts"]]):
+            run_history(h, rec)
+            if i < 1:
+                rec.sample(h)
+        rec.enumerated("histories: shape x route x version x auth x port-list x detach x key (%d)" % len(hs))
     elif spec["mode"] == "random":
         for i in range(spec["n"]):
             rnd = gen.rnd_for(spec["seed"], PROPERTY, spec["shard"], i)
@@ -652,11 +818,15 @@ def replay(case, rec):
     quiet_logs()
     OT.memoize_pem_loading()
     OT.KEYS.rsa(0)
-    run_cell(case, rec)
+    if "history" in case:
+        run_history(case, rec)
+    else:
+        run_cell(case, rec)
 
 
 def plan(tier, seed):
     specs = [{"mode": "product", "part": i, "parts": 14} for i in range(14)]
+    specs += [{"mode": "history", "part": i, "parts": 2} for i in range(2)]
     if tier == "thorough":
         specs += [{"mode": "random", "n": 900} for _ in range(12)]
     return specs
